@@ -504,6 +504,137 @@ theorem queued_while_dialing_not_refused (a b : Nat) (hab : a ≤ b) (ls : List 
   have := sys_inv_run ls _ s (sys_init_inv a b) hr
   exact early_not_refused s this.1 (by rw [this.2.1, this.2.2]; exact hab) hok hw hc
 
+
+/-! ## why the early caller must re-reserve BEFORE it leaves the wait group
+
+`proceed` is one step of the model because `c09LazyEarlyExchange` finds
+`dc.ReserveNewQuery()` before `earlyReserveCallWg.Done()` in the dial arm: until
+`Done` no late caller gets past `Wait`. If `Done` came first, a late caller
+could take the slot in between: -/
+
+/-- the wait-group half of `proceed` alone -/
+def doneOnly (s : Sys) : Sys := { s with lz := { s.lz with wg := s.lz.wg - 1, ew := s.lz.ew - 1, ex := s.lz.ex + 1 } }
+
+/-- witness (queue limit 1, connection limit 1, one queued query, dial ok): after
+`Done` alone the late caller is admitted by the connection, and the re-reservation
+of the queued query is refused. -/
+example : ((Sys.init 1 1).run [.lz .reserve, .lz .enter, .lz .dialOk]).map (fun s =>
+    ((doneOnly s).step (.lz .reserve)).map (fun p => (p.2, (p.1.tdc.step .reserve).map (·.2)))) =
+    some (some (.admitted, some .refused)) := by decide
+
+/-! ## the transport's pick among its connections -/
+
+/-- with `stop`, the loop takes exactly the reservation it hands out: nothing is
+taken when it returns none, and otherwise exactly one, on the connection named
+by the result, which had room. -/
+theorem pickGo_stop (maxAttempt : Nat) (rs : List Nat) : ∀ (att i : Nat),
+    ((pickGo true maxAttempt att i none rs).2 = none → (pickGo true maxAttempt att i none rs).1 = rs) ∧
+    (∀ k, (pickGo true maxAttempt att i none rs).2 = some k →
+      ∃ j, k = i + j ∧ j < rs.length ∧ 0 < rs.getD j 0 ∧
+        (pickGo true maxAttempt att i none rs).1 = rs.set j (rs.getD j 0 - 1)) := by
+  induction rs with
+  | nil => intro att i; simp [pickGo]
+  | cons r rs ih =>
+    intro att i
+    by_cases hr : r = 0
+    · by_cases ha : att + 1 > maxAttempt
+      · simp [pickGo, hr, ha]
+      · obtain ⟨ih1, ih2⟩ := ih (att + 1) (i + 1)
+        simp only [pickGo, hr, ha, ↓reduceIte]
+        refine ⟨fun h => (by rw [ih1 h]), fun k hk => ?_⟩
+        obtain ⟨j, hj1, hj2, hj3, hj4⟩ := ih2 k hk
+        refine ⟨j + 1, by omega, by simp; omega, by simpa using hj3, ?_⟩
+        simp only [List.getD_cons_succ, List.set_cons_succ]
+        rw [hj4]
+    · simp only [pickGo, hr, ↓reduceIte]
+      refine ⟨fun h => (by cases h), fun k hk => ?_⟩
+      simp only [Option.some.injEq] at hk
+      exact ⟨0, by omega, by simp, by simp; omega, by simp⟩
+
+theorem total_set (rs : List Nat) : ∀ (j : Nat), j < rs.length → 0 < rs.getD j 0 →
+    total (rs.set j (rs.getD j 0 - 1)) + 1 = total rs := by
+  induction rs with
+  | nil => intro j h; simp at h
+  | cons r rs ih =>
+    intro j hj hp
+    cases j with
+    | zero => simp at hp; simp [total]; omega
+    | succ j =>
+      simp only [List.getD_cons_succ, List.set_cons_succ, total] at hp ⊢
+      have := ih j (by simpa using hj) hp
+      omega
+
+
+/-- **Every reservation the transport takes is the one it hands to the caller**:
+the room lost over all connections equals the number of reservations returned
+(0 or 1), for every visiting order and every attempt bound. -/
+theorem pick_accounts (maxAttempt : Nat) (rooms : List Nat) :
+    total (pick true maxAttempt rooms).1 + handed (pick true maxAttempt rooms).2 = total rooms := by
+  obtain ⟨h1, h2⟩ := pickGo_stop maxAttempt rooms 0 0
+  simp only [pick]
+  cases hres : (pickGo true maxAttempt 0 0 none rooms).2 with
+  | none => rw [h1 hres]; simp [handed]
+  | some k =>
+    obtain ⟨j, _, hj2, hj3, hj4⟩ := h2 k hres
+    rw [hj4]
+    simpa [handed] using total_set rooms j hj2 hj3
+
+/-- the transport dials a new connection only if the connections it visited all
+refused (for pools of at most `maxAttempt` connections: all of them). -/
+theorem pickGo_none_all_full (maxAttempt : Nat) (rs : List Nat) : ∀ (att i : Nat), att + rs.length ≤ maxAttempt →
+    (pickGo true maxAttempt att i none rs).2 = none → ∀ r ∈ rs, r = 0 := by
+  induction rs with
+  | nil => intro att i _ _ r hr; cases hr
+  | cons r rs ih =>
+    intro att i hlen hnone x hx
+    simp only [List.length_cons] at hlen
+    by_cases hr : r = 0
+    · have ha : ¬ att + 1 > maxAttempt := by omega
+      simp only [pickGo, hr, ha, ↓reduceIte] at hnone
+      cases hx with
+      | head => exact hr
+      | tail _ hx' => exact ih (att + 1) (i + 1) (by omega) hnone x hx'
+    · simp [pickGo, hr] at hnone
+
+/-- any number of queries one after the other, none finished in between: the
+reservations handed out and the room left add up to the room there was. -/
+theorem pickN_accounts (maxAttempt : Nat) : ∀ (n : Nat) (rooms : List Nat),
+    (pickN true maxAttempt n rooms).1 + total (pickN true maxAttempt n rooms).2 = total rooms := by
+  intro n
+  induction n with
+  | zero => intro rooms; simp [pickN]
+  | succ n ih =>
+    intro rooms
+    have hacc := pick_accounts maxAttempt rooms
+    simp only [pickN]
+    cases hp : pick true maxAttempt rooms with
+    | mk rooms' res =>
+      rw [hp] at hacc
+      cases res with
+      | none =>
+        simp only [handed] at hacc ⊢
+        have := ih rooms'
+        omega
+      | some k =>
+        simp only [handed] at hacc ⊢
+        have := ih rooms'
+        omega
+
+/-- the same for the loop as the source has it now (regenerated fact) -/
+theorem pipeline_pick_accounts (maxAttempt n : Nat) (rooms : List Nat) :
+    let stop := Gen.Facts.c09PipelinePickStopsAtFirstReservation == some true
+    total (pick stop maxAttempt rooms).1 + handed (pick stop maxAttempt rooms).2 = total rooms ∧
+    (pickN stop maxAttempt n rooms).1 + total (pickN stop maxAttempt n rooms).2 = total rooms := by
+  have h : (Gen.Facts.c09PipelinePickStopsAtFirstReservation == some true) = true := by decide
+  simp only [h]
+  exact ⟨pick_accounts maxAttempt rooms, pickN_accounts maxAttempt n rooms⟩
+
+/-- witness: a loop that goes on after its first reservation (keeping the later
+one) takes two reservations and hands out one; four such queries use up the
+room of two connections with limit 4 that carry nothing. -/
+example : pick false 16 [1, 1] = ([0, 0], some 1) ∧ pickN false 16 8 [4, 4] = (4, [0, 0]) ∧ pickN true 16 8 [4, 4] = (8, [0, 0]) := by decide
+
+
 /-! ## non-pipelined reused connection -/
 
 theorem reuse_inv_step (s s' : Reuse) (l : RLabel) (hi : s.inv = true) (hs : s.step l = some s') : s'.inv = true := by
@@ -545,7 +676,8 @@ theorem facts_guard :
     Gen.Facts.c09LazyEarlyExchange = some true ∧ Gen.Facts.c09LazyWithdrawOnce = some true ∧
     Gen.Facts.c09LazyReservedIncSites = some 1 ∧ Gen.Facts.c09LazyReservedDecSites = some 2 ∧
     Gen.Facts.c09LazyWgDoneSites = some 3 ∧ Gen.Facts.c09LazyWgAddSites = some 1 ∧
-    Gen.Facts.c09PipelineUsesEachReservationOnce = some true := by decide
+    Gen.Facts.c09PipelineUsesEachReservationOnce = some true ∧
+    Gen.Facts.c09PipelinePickStopsAtFirstReservation = some true ∧ Gen.Facts.c09PipelineMaxReserveAttempt = some 16 := by decide
 
 /-! ## non-vacuity: histories that meet the hypotheses -/
 
